@@ -55,9 +55,10 @@ def cfg(compiler, opt, std='c++17', abacus=False, **kw):
 # the clang configuration mirrors a release build of a project that uses the compiler defaults: GNU dialect (no __STRICT_ANSI__),
 # -DNDEBUG, and -funsigned-char (the default on ARM/PowerPC Linux): code hidden behind those switches is a configuration dimension too
 FORCE_CE = ['-include', os.path.join(HARNESS, 'force_ce.h')]   # harness/force_ce.h: is_constant_evaluated() answers true at run time
-QUICK_CFGS = [cfg('g++', '-O0', extra=['-DVERIF_UMBRELLA=1'], tag='gcc-O0-c++17-umbrella'), cfg('g++', '-O2'), cfg('clang++', '-O2', 'gnu++17', extra=['-DNDEBUG', '-funsigned-char'], tag='clang-O2-gnu++17-ndebug-uchar'),
+QUICK_CFGS = [cfg('g++', '-O0', 'gnu++17', extra=['-DVERIF_UMBRELLA=1'], tag='gcc-O0-gnu++17-umbrella'), cfg('g++', '-O2'), cfg('clang++', '-O2', 'gnu++17', extra=['-DNDEBUG', '-funsigned-char'], tag='clang-O2-gnu++17-ndebug-uchar'),
               cfg('g++', '-O2', 'c++20', extra=FORCE_CE, tag='gcc-O2-c++20-ce')]
-ABACUS_QUICK = [cfg('g++', '-O2', abacus=True)]
+# the abacus configuration is also the GNU-dialect, -march=native (LZCNT/BMI/AVX2 builtins selected by feature macros) one
+ABACUS_QUICK = [cfg('g++', '-O2', 'gnu++17', abacus=True, extra=['-march=native'], tag='gcc-O2-gnu++17-abacus-native')]
 
 
 def thorough_cfgs():
@@ -72,13 +73,15 @@ def thorough_cfgs():
         out.append(cfg(cc, '-O2', 'c++2b'))
         out.append(cfg(cc, '-Os'))
         out.append(cfg(cc, '-O2', 'gnu++17'))
+        out.append(cfg(cc, '-O3', 'c++17', extra=['-march=native'], tag=f"{'gcc' if cc == 'g++' else 'clang'}-O3-c++17-native"))
         out.append(cfg(cc, '-O1', 'c++20', extra=FORCE_CE, tag=f"{'gcc' if cc == 'g++' else 'clang'}-O1-c++20-ce"))
         out.append(cfg(cc, '-O1', 'gnu++20', extra=['-funsigned-char'], tag=f"{'gcc' if cc == 'g++' else 'clang'}-O1-gnu++20-uchar"))
     return out
 
 
 def abacus_thorough():
-    return [cfg(cc, o, abacus=True) for cc in ('g++', 'clang++') for o in ('-O0', '-O2')]
+    return [cfg(cc, o, abacus=True) for cc in ('g++', 'clang++') for o in ('-O0', '-O2')] + \
+        [cfg(cc, '-O2', 'gnu++17', abacus=True, extra=['-march=native'], tag=f"{'gcc' if cc == 'g++' else 'clang'}-O2-gnu++17-abacus-native") for cc in ('g++', 'clang++')]
 
 
 NEEDS_ABACUS = {'C08', 'C12', 'C13', 'C14'}
